@@ -1008,6 +1008,49 @@ func (env *Env) evalCall(x *ECall) SV {
 			return SV{Select(Select(km.v, arg(2).V, T.ArrayOf(km.k, km.e)), arg(3).V, km.e), vt}
 		}
 		return SV{Select(km.n, arg(2).V, sortInt), ti}
+	case "itvisited":
+		// itvisited(it, key): the database iterator it has moved past key since its last Seek
+		T := vc.eng.st
+		return SV{Select(Select(vc.kvitVis(env.st), arg(0).V, T.ArrayOf(sortStr, sortBool)), arg(1).V, sortBool), types.Typ[types.Bool]}
+	case "itcur":
+		return SV{Select(vc.kvitCur(env.st), arg(0).V, sortStr), types.Typ[types.String]}
+	case "kvunchanged", "kvallsame":
+		// kvunchanged(key): everything the database holds under key is what it held at entry;
+		// kvallsame(): the whole database is as it was at entry
+		if env.old == nil {
+			specFail("%s needs the entry state", x.Fun)
+		}
+		names := map[string]bool{}
+		for _, n := range kvHeapNames(env.st) {
+			names[n] = true
+		}
+		for _, n := range kvHeapNames(env.old) {
+			names[n] = true
+		}
+		var cs []*Term
+		for _, n := range sortedKeys(names) {
+			if strings.HasPrefix(n, "KVIT") || n == "KVsum" {
+				continue
+			}
+			cur, ok1 := env.st.heaps[n]
+			was, ok2 := env.old.heaps[n]
+			if !ok1 && !ok2 {
+				continue
+			}
+			if !ok1 {
+				cur = vc.heap(env.st, n, was.Sort)
+			}
+			if !ok2 {
+				was = vc.initialHeap(n, cur.Sort)
+			}
+			if x.Fun == "kvallsame" {
+				cs = append(cs, Eq(cur, was))
+			} else {
+				k := arg(0).V
+				cs = append(cs, Eq(Select(cur, k, cur.Sort.Elem), Select(was, k, was.Sort.Elem)))
+			}
+		}
+		return SV{And(cs...), types.Typ[types.Bool]}
 	case "kvsum":
 		return SV{vc.kvSum(env.st), ti}
 	case "txncount":
